@@ -185,5 +185,6 @@ func ruleRendezvousNoCycle(c *eng.Ctx) {
 			c.Check(matched, rule, a.desc+"×"+b.desc, b.in.Pos(), "when both goroutines wait here, one of them sends on a channel the other receives from (otherwise both block forever: the lock is no longer refreshed nor monitored and the context is never cancelled)")
 		}
 	}
-	c.Floor(rule, 3, 3)
+	// the pair obligations exist only while both sides have a wait without another way out
+	c.Floor(rule, 2, 3)
 }
